@@ -426,19 +426,22 @@ def build_negative(tier, seed):
             ("debug with a write-only field must not compile (w fields have no getter)", "C17", "w", None),
             ("debug with an unspecified-access field must not compile (no getter)", "C17", "", None),
             ("debug with a write-only bool must not compile", "C17", "w", "bool"),
-            ("debug with an array field must not compile", "C19", "rw", "array"),
+            ("debug with an array field must not compile (no Debug-printable getter without an index)", "C19", "rw", "array_noprobe"),
             ("debug with a write-only array field must not compile", "C17", "w", "array")]):
         mod = "g%d" % i
         if arr == "bool":
             f = field("key", [(4, 4)], T_bool(), access=acc)
-        elif arr == "array":
+        elif arr in ("array", "array_noprobe"):
             f = field("key", [(4, 5)], T_uint(2), access=acc, array={"k": 2, "stride": None})
         else:
             f = field("key", [(4, 7)], T_uint(4), access=acc)
         fs = [field("plain", [(0, 3)], T_uint(4)), f]
         s = struct(mod, "W", 16, fs, family="NEG", debug=True, default={"form": "=", "value": 0})
         from corpus import imports_of
-        negt.add(raw_item(mod, "W", render_struct(s), prop, clause, extra={"imports": sorted(imports_of(s))}))
+        probe = ["/// if this compiles as well, the field has a getter", "pub fn probe(w: W) {", "    let _ = w.key(%s);" % ("0" if arr == "array" else ""), "}"]
+        if arr == "array_noprobe":
+            probe = []
+        negt.add(raw_item(mod, "W", render_struct(s) + probe, prop, clause, extra={"imports": sorted(imports_of(s))}))
         s2 = struct(mod, "W", 16, fs, family="TWIN", debug=False, default={"form": "=", "value": 0})
         twin.add(s2)
     crates.append(negt)
